@@ -226,7 +226,8 @@ func (r *reader) read() (m Message, err error) {
 
 	//fmt.Println("expectChunk", r.expectChunk)
 
-	if r.expectChunk {
+	// skip over any number of unknown chunks until the next track chunk starts
+	for r.expectChunk && r.error == nil {
 		r.readChunk()
 	}
 
